@@ -249,7 +249,12 @@ type c20Decl struct {
 	inner []string // comments inside the declaration (body, fields, specs): not doc
 	trail string   // comment on the closing line: not doc
 	after []string // free-standing comment group after the declaration
+	padLen int     // kind "padstr": length of the string literal
 }
+
+// c20Align asks the renderer to size the "padstr" declaration decls[pad] so that comment
+// doc[line] of decls[decl] begins exactly at byte offset `at` of the file.
+type c20Align struct{ pad, decl, line, at int }
 
 type c20File struct {
 	goSyntax bool
@@ -258,6 +263,7 @@ type c20File struct {
 	decls    []c20Decl
 	raw      []string // content lines of a file that is not Go syntax
 	crlf     bool
+	aligns   []c20Align // in increasing file order
 }
 
 type c20Ent struct {
@@ -324,13 +330,47 @@ func c20Describe(b *strings.Builder, ents []*c20Ent) {
 	}
 }
 
+const c20PadChars = "0123456789abcdefghijklmnopqrstuvwxyz-+*=<>()[] ABCDEFGHIJKLMNOPQRSTUVWXYZ.,;:_"
+
+func c20PadText(n int) string {
+	return strings.Repeat(c20PadChars, n/len(c20PadChars)+1)[:n]
+}
+
+// render sizes the padding declarations until every requested alignment holds.
 func (f *c20File) render() string {
+	s, offs := f.renderRaw()
+	at := func(a c20Align) int {
+		off := offs[a.decl]
+		for _, l := range f.decls[a.decl].doc[:a.line] {
+			off += len(l) + 1
+		}
+		return off
+	}
+	for _, a := range f.aligns {
+		if off := at(a); off > a.at || f.crlf {
+			panic(fmt.Sprintf("c20: cannot place comment at %d (already at %d)", a.at, off))
+		} else {
+			f.decls[a.pad].padLen += a.at - off
+		}
+		s, offs = f.renderRaw()
+	}
+	for _, a := range f.aligns {
+		if l := f.decls[a.decl].doc[a.line]; at(a) != a.at || !strings.HasPrefix(s[a.at:], l+"\n") {
+			panic(fmt.Sprintf("c20: alignment at %d failed", a.at))
+		}
+	}
+	return s
+}
+
+// renderRaw returns the file text and, per declaration, the offset at which its doc group starts.
+func (f *c20File) renderRaw() (string, []int) {
 	var b strings.Builder
+	var offs []int
 	if !f.goSyntax {
 		for _, l := range f.raw {
 			b.WriteString(l + "\n")
 		}
-		return b.String()
+		return b.String(), nil
 	}
 	for _, h := range f.header {
 		b.WriteString(h + "\n")
@@ -340,6 +380,7 @@ func (f *c20File) render() string {
 	}
 	b.WriteString("package " + f.pkg + "\n\n")
 	for _, d := range f.decls {
+		offs = append(offs, b.Len())
 		for _, l := range d.doc {
 			b.WriteString(l + "\n")
 		}
@@ -379,6 +420,8 @@ func (f *c20File) render() string {
 			b.WriteString("var (\n")
 			inner()
 			b.WriteString("\t" + d.name + " = 3\n)")
+		case "padstr":
+			b.WriteString("var " + d.name + " = \"" + c20PadText(d.padLen) + "\"")
 		}
 		if d.trail != "" {
 			b.WriteString(" " + d.trail)
@@ -395,7 +438,7 @@ func (f *c20File) render() string {
 	if f.crlf {
 		s = strings.ReplaceAll(s, "\n", "\r\n")
 	}
-	return s
+	return s, offs
 }
 
 func c20Write(t *testing.T, dir string, ents []*c20Ent) {
@@ -463,13 +506,13 @@ func c20Case(t *testing.T, out *verifWriter, id string, ents []*c20Ent, root str
 }
 
 // c20Generated materialises a generated tree under $VERIF_BUILD/trees/<id> and runs the case.
-func c20Generated(t *testing.T, out *verifWriter, base, id string, ents []*c20Ent) {
+func c20Generated(t *testing.T, out *verifWriter, base, id string, ents []*c20Ent, runs int) {
 	root := filepath.Join(base, id)
 	if err := os.MkdirAll(root, 0755); err != nil {
 		t.Fatal(err)
 	}
 	c20Write(t, root, ents)
-	c20Case(t, out, id, ents, root, c20Runs)
+	c20Case(t, out, id, ents, root, runs)
 	if os.Getenv("VERIF_KEEP") == "" {
 		os.RemoveAll(root)
 	}
@@ -672,6 +715,9 @@ func c20GenDir(r *vrng, depth, width int) []*c20Ent {
 			}
 		case k < 75:
 			e = &c20Ent{name: c20GoNames[r.intn(len(c20GoNames))], file: c20GenGoFile(r)}
+			if r.chance(4) {
+				e.file = c20GenBigFile(r)
+			}
 		case k < 88:
 			e = &c20Ent{name: c20TestNames[r.intn(len(c20TestNames))], file: c20GenGoFile(r)}
 		default:
@@ -689,6 +735,122 @@ func c20GenDir(r *vrng, depth, width int) []*c20Ent {
 		ents = append(ents, e)
 	}
 	return ents
+}
+
+// ------------------------------------------------------------------ big files: annotations at chosen byte offsets
+
+// Comment texts that do not contain the directive text anywhere (so that the annotation placed
+// at the chosen offset is the only occurrence of the marker in the file).
+var c20Filler = []string{"// filler: tables below are generated.", "//go:nosplit", "// go:redirect-from runtime.spaced",
+	"//go:redirect-to runtime.other", "/*go:redirect-from runtime.block*/", "//", "// see the boot assembly for NUM_REDIRECTS.", "//go:noinline"}
+
+// c20FillerDecls yields about `bytes` bytes of ordinary declarations, comments and literals
+// (style 0: one string literal does the work later; 1: comments; 2: many declarations).
+func c20FillerDecls(style, bytes int) []c20Decl {
+	if bytes < 400 {
+		return nil
+	}
+	ds := []c20Decl{{kind: "var", name: "tableSize", doc: []string{c20Filler[0]}},
+		{kind: "struct", name: "glyph", doc: []string{c20Filler[2]}, inner: []string{c20Filler[3]}}}
+	switch style {
+	case 1: // a free-standing block comment and a long line comment, about half of the distance
+		ds = append(ds, c20Decl{kind: "type", name: "pad", after: []string{"/* " + c20PadText(bytes/3) + " */", "// " + c20PadText(bytes/6)}})
+	case 2: // many small declarations, some documented
+		n := bytes / 24
+		if n > 2500 {
+			n = 2500
+		}
+		for i := 0; i < n; i++ {
+			d := c20Decl{kind: []string{"var", "const", "type"}[i%3], name: fmt.Sprintf("pad%d", i)}
+			if i%50 == 0 {
+				d.doc = []string{c20Filler[i/50%len(c20Filler)]}
+			}
+			if i%70 == 0 {
+				d = c20Decl{kind: "func", name: fmt.Sprintf("padFn%d", i), doc: []string{c20Filler[4]}, inner: []string{c20Filler[1]}}
+			}
+			ds = append(ds, d)
+		}
+	}
+	return ds
+}
+
+// c20BigFile builds a Go file whose annotations begin exactly at the byte offsets `ats`
+// (increasing); `early` adds one more annotated function at the very top of the file, `tail`
+// bytes of literal follow the last annotated function.
+func c20BigFile(style int, ats []int, early bool, tail int, tag string) *c20File {
+	f := &c20File{goSyntax: true, pkg: "kernel"}
+	if early {
+		f.decls = append(f.decls, c20Fn("early"+tag, c20Directive+" runtime.early"+tag))
+	}
+	prev := 0
+	for i, at := range ats {
+		f.decls = append(f.decls, c20FillerDecls(style, at-prev-400)...)
+		f.decls = append(f.decls, c20Decl{kind: "padstr", name: fmt.Sprintf("padData%d", i)})
+		doc := []string{fmt.Sprintf("%s runtime.at%s_%d", c20Directive, tag, i)}
+		line := 0
+		if (at+i)%2 == 1 { // the annotation is not always the first comment of the group
+			doc = []string{"// " + fmt.Sprintf("Target%d replaces a runtime symbol.", i), doc[0], "//go:nosplit"}
+			line = 1
+		}
+		kind := "func"
+		if at%3 == 0 {
+			kind = "method"
+		}
+		f.decls = append(f.decls, c20Decl{kind: kind, name: fmt.Sprintf("Target%s_%d", tag, i), doc: doc})
+		f.aligns = append(f.aligns, c20Align{pad: len(f.decls) - 2, decl: len(f.decls) - 1, line: line, at: at})
+		prev = at
+		style = 0 // later gaps are bridged by the literal alone
+	}
+	if tail > 0 {
+		f.decls = append(f.decls, c20Decl{kind: "padstr", name: "padTail", padLen: tail})
+	}
+	return f
+}
+
+// c20Sweep: one file per offset mult*k-24 … mult*k+2, each with its annotation exactly there.
+func c20Sweep(mult, k int, early bool) []*c20Ent {
+	var files []*c20Ent
+	for d := -24; d <= 2; d++ {
+		tag := fmt.Sprintf("m%dk%dd%d", mult, k, d+24)
+		files = append(files, c20F(fmt.Sprintf("o%02d.go", d+24), c20BigFile((d+24)%3, []int{mult*k + d}, early, (d+24)%4*mult/2, tag)))
+	}
+	return []*c20Ent{c20F("small.go", c20GoFile(c20Fn("small", c20Directive+" runtime.small"))), c20D("font", files...)}
+}
+
+// c20SweepPairs: files with two annotations, each near a (different) multiple of mult.
+func c20SweepPairs(mult int) []*c20Ent {
+	var files []*c20Ent
+	for i, p := range [][4]int{{1, -17, 2, -1}, {1, -1, 2, -17}, {1, -9, 3, -9}, {2, -18, 3, 0}, {1, 0, 2, -18}, {1, -5, 4, -12}, {2, -1, 4, -1}} {
+		tag := fmt.Sprintf("p%dn%d", mult, i)
+		files = append(files, c20F(fmt.Sprintf("p%d.go", i), c20BigFile(i%3, []int{mult*p[0] + p[1], mult*p[2] + p[3]}, false, mult/3, tag)))
+	}
+	return []*c20Ent{c20D("device", c20D("acpi", files...))}
+}
+
+// c20GenBigFile: seeded counterpart — random padding, the annotation near a multiple of a
+// plausible buffer size (or anywhere), alone or with company.
+func c20GenBigFile(r *vrng) *c20File {
+	mult := []int{512, 1024, 4096, 8192, 16384, 32768, 65536}[r.intn(7)]
+	k := r.between(1, 4)
+	for mult*k > 200000 {
+		k--
+	}
+	for mult*k < 1024 {
+		k++
+	}
+	at := mult*k + r.between(-24, 2)
+	if r.chance(25) {
+		at = r.between(600, 150000)
+	}
+	ats := []int{at}
+	if r.chance(20) {
+		ats = append(ats, at+mult*r.between(1, 2)+r.between(-24, 2))
+	}
+	f := c20BigFile(r.intn(3), ats, r.chance(15), r.intn(3)*r.intn(40000), fmt.Sprintf("r%d", r.intn(1000)))
+	if r.chance(15) { // company that carries the marker text without being an annotation
+		f.decls = append(f.decls, c20Decl{kind: "var", name: "tailVar", doc: []string{c20Directive + " runtime.onVar"}})
+	}
+	return f
 }
 
 // ------------------------------------------------------------------ deterministic boundary list
@@ -813,7 +975,17 @@ func TestVerifC20(t *testing.T) {
 	out.printf("#module %s\n", c20Hex(module))
 
 	for i, ents := range c20Boundary() {
-		c20Generated(t, out, base, fmt.Sprintf("b%d", i), ents)
+		c20Generated(t, out, base, fmt.Sprintf("b%d", i), ents, c20Runs)
+	}
+
+	// byte-offset sweep: the annotation at every offset around multiples of plausible buffer sizes
+	// (4 runs per tree: these trees probe file size / position, not iteration order)
+	for _, mk := range [][2]int{{512, 2}, {512, 3}, {1024, 1}, {4096, 1}, {4096, 2}, {4096, 3}, {4096, 4}, {32768, 1}, {32768, 2}, {32768, 3}, {32768, 4}, {65536, 3}} {
+		c20Generated(t, out, base, fmt.Sprintf("sweep-%d-%d", mk[0], mk[1]), c20Sweep(mk[0], mk[1], false), 4)
+		c20Generated(t, out, base, fmt.Sprintf("sweep-%d-%d-early", mk[0], mk[1]), c20Sweep(mk[0], mk[1], true), 4)
+	}
+	for _, m := range []int{4096, 32768, 65536} {
+		c20Generated(t, out, base, fmt.Sprintf("pairs-%d", m), c20SweepPairs(m), 4)
 	}
 
 	// the kernel tree itself (relative to the package under test: <repo>/kbuild/../kernel)
@@ -827,6 +999,6 @@ func TestVerifC20(t *testing.T) {
 	}
 	for i := 0; i < n; i++ {
 		r := rng.fork()
-		c20Generated(t, out, base, fmt.Sprintf("%d", i), c20GenDir(r, 0, width))
+		c20Generated(t, out, base, fmt.Sprintf("%d", i), c20GenDir(r, 0, width), c20Runs)
 	}
 }
